@@ -27,6 +27,14 @@ import GcArena.Model.Conv
                                 (start pointer strong / weak).
     enum <target> <s|w>         Answer `enum ok` (the harness reports that it could enumerate).
     count <target> <len> <s|w>  Answer `count <number of well-typed chains of exactly that length>`.
+    alias <maxalign> <t1> <t2> <same|diff|fresh> <chain1> <chain2>
+        two zero-sized values of different types (`z:<align>` / `zn:<align>` unit structs with /
+        without destructor, `u:<n>` = `[(); n]`) from the same `ZstCache<maxalign>`, from two caches,
+        or the second from `Gc::new`; each converted by its chain.  Answer
+        `ok cmp=<tags of the common Rust type|-> eq=<typed ptr_eq|-> eeq=<ptr_eq after erase>` |
+        `ill-typed <1|2> <k>`.
+    prefix <n> <k>              `Gc::from_ptr` of a `[u8]` prefix (length k) of an allocation of n
+                                bytes.  Answer `ok eq=<0|1> weq=<0|1> eeq=<0|1>`.
     zst <size> <align> <maxalign> <alloc|alloc_static>
         Answer `shared=<0|1> fresh=<0|1> drops_now=<n> drops_later=<n> aligned=<0|1>` (aligned:
         is an address that is a multiple of <maxalign> a multiple of <align>, when shared).
@@ -151,6 +159,55 @@ def answerCase (t : Target) (ch : Chain) (placement : Option String) (ph : Phase
           s!"ok {shape} state={stateS} keeps={if keeps && st.1 then 1 else 0} " ++
           s!"stash={if stashable then 1 else 0} up_after={up} {drops}"
 
+/-- A zero-sized type of the aliasing grid: `z:<align>` / `zn:<align>` (a unit struct with /
+    without a destructor) or `u:<n>` (`[(); n]`).  Returns (target when it gets its own block or
+    the cache's block, alignment). -/
+def parseZ (s : String) (maxAlign : Nat) : Option (Target × Nat) :=
+  match s.splitOn ":" with
+  | ["z", a] | ["zn", a] =>
+    a.toNat?.bind fun a => if a = 0 then none else
+      some (if zstShared 0 a maxAlign then .zcached a maxAlign else .zst a, a)
+  | ["u", n] => n.toNat?.map fun n => (.array n, 1)
+  | _ => none
+
+def showTags (q : PtrVal) : String :=
+  s!"{if q.weak then "w" else "s"}/{if q.thin then "thin" else "fat"}/{showPMeta q.pmeta}/{showTy q.ty}"
+
+/-- `alias`: block ids — cache A = 0, cache B = 10, fresh blocks 1 and 2. -/
+def answerAlias (m : Nat) (t1 t2 : Target × Nat) (rel : String) (ch1 ch2 : Chain) : String :=
+  let q1? := zstShared 0 t1.2 m
+  let q2? := zstShared 0 t2.2 m
+  let id1 := if q1? then 0 else 1
+  let id2? : Option Nat :=
+    match rel with
+    | "same" => some (if q2? then 0 else 2)
+    | "diff" => some (if q2? then 10 else 2)
+    | "fresh" => some 2
+    | _ => none
+  match id2? with
+  | none => "bad-query"
+  | some id2 =>
+    -- a value that does not come from the cache is an ordinary allocation of its type
+    let tgt (t : Target × Nat) (cached : Bool) : Target :=
+      match t.1 with
+      | .zcached a _ => if cached then t.1 else .zst a
+      | x => x
+    let a1 : Alloc := ⟨id1, tgt t1 q1?, true, false⟩
+    let a2 : Alloc := ⟨id2, tgt t2 (q2? && rel != "fresh"), true, false⟩
+    match firstIllTyped a1.target ch1 (initPtr a1) 0, firstIllTyped a2.target ch2 (initPtr a2) 0 with
+    | some k, _ => s!"ill-typed 1 {k}"
+    | none, some k => s!"ill-typed 2 {k}"
+    | none, none =>
+      match apply a1 ch1 (initPtr a1), apply a2 ch2 (initPtr a2) with
+      | some r1, some r2 =>
+        let eeq := if samePtr r1 r2 then 1 else 0
+        -- the two ends have the same Rust type iff all tags agree and the static type is not one
+        -- of the two (different) allocated types
+        let comparable := r1.weak == r2.weak && r1.thin == r2.thin && r1.pmeta == r2.pmeta &&
+          r1.ty == r2.ty && r1.ty != .orig
+        if comparable then s!"ok cmp={showTags r1} eq={eeq} eeq={eeq}" else s!"ok cmp=- eq=- eeq={eeq}"
+      | _, _ => "bad-query"
+
 def answer (ws : List String) : String :=
   match ws with
   | ["case", t, ch, pl, sched, phase, age] =>
@@ -163,6 +220,25 @@ def answer (ws : List String) : String :=
     match parseTarget t, parseChain ch, (if w = "s" then some Age.fresh else if w = "w" then some Age.ww else none) with
     | some t, some ch, some age => answerCase t ch none .sleep age
     | _, _, _ => "bad-query"
+  | ["alias", m, t1, t2, rel, ch1, ch2] =>
+    match m.toNat? with
+    | some m =>
+      if m = 0 then "bad-query" else
+      match parseZ t1 m, parseZ t2 m, parseChain ch1, parseChain ch2 with
+      | some t1, some t2, some ch1, some ch2 => answerAlias m t1 t2 rel ch1 ch2
+      | _, _, _, _ => "bad-query"
+    | none => "bad-query"
+  | ["prefix", n, k] =>
+    -- `Gc::from_ptr` of a `[u8]` prefix of the same allocation: same (obj, off), other length
+    match n.toNat?, k.toNat? with
+    | some n, some k =>
+      if k ≤ n then
+        let p : PtrVal := ⟨0, 0, false, false, .unit, .orig, .len n⟩
+        let q : PtrVal := { p with carried := .len k }
+        let e := if samePtr p q then 1 else 0
+        s!"ok eq={e} weq={e} eeq={e}"
+      else "bad-query"
+    | _, _ => "bad-query"
   | ["enum", t, w] =>
     -- the harness enumerated the chains the real API accepts for this target without incident
     match parseTarget t with
